@@ -68,6 +68,30 @@ impl EnumDefinition {
     }
 }
 
+/// The range of values an enum over a predefined integer type may be given, if `ty` is one.
+///
+/// Negative values for an unsigned type are still accepted down to the minimum of the signed type
+/// of the same width and end up as their two's complement, as existing descriptions rely on that.
+fn integer_range(ty: &Type) -> Option<(i128, i128)> {
+    let Type::Raw(path) = ty else {
+        return None;
+    };
+    if path.len() != 1 {
+        return None;
+    }
+    Some(match path.last()?.as_str() {
+        "u8" => (i8::MIN as i128, u8::MAX as i128),
+        "u16" => (i16::MIN as i128, u16::MAX as i128),
+        "u32" => (i32::MIN as i128, u32::MAX as i128),
+        "u64" => (i64::MIN as i128, u64::MAX as i128),
+        "i8" => (i8::MIN as i128, i8::MAX as i128),
+        "i16" => (i16::MIN as i128, i16::MAX as i128),
+        "i32" => (i32::MIN as i128, i32::MAX as i128),
+        "i64" => (i64::MIN as i128, i64::MAX as i128),
+        _ => return None,
+    })
+}
+
 pub fn build(
     semantic: &SemanticState,
     resolvee_path: &ItemPath,
@@ -108,6 +132,13 @@ pub fn build(
                 format!("implicit value for case `{name}` of enum `{resolvee_path}` overflows")
             })?,
         };
+        if let Some((min, max)) = integer_range(&ty) {
+            if (value as i128) < min || (value as i128) > max {
+                anyhow::bail!(
+                    "value {value} for case `{name}` of enum `{resolvee_path}` does not fit its type `{ty}`"
+                );
+            }
+        }
         fields.push((name.0.clone(), value));
 
         for attribute in attributes {
